@@ -6,6 +6,7 @@ CONSTANTS
   BatchSz = 2
   InCap = 0
   AsyncHWM = FALSE
+  SigCap = 2
   MaxFlips = 99
   MaxLeaders = 1
   MaxRestarts = 0
@@ -19,6 +20,7 @@ CONSTANTS
   HWMAfterSendOK = FALSE
   PruneToHWMOnly = TRUE
   RewindCursor = TRUE
+  ParkedKeptUntilSent = TRUE
   RestartHWMBelowLowest = TRUE
   DropReapplied = TRUE
-INVARIANTS TypeOK Labelled NoSkip TenureOrder TakenStored KeysBounded
+INVARIANTS TypeOK Labelled NoSkip TenureOrder TakenStored KeysBounded LoopShape
